@@ -52,6 +52,7 @@ class SimBroker:
         self.committed = {}               # (group, topic, partition) -> (offset, metadata)
         self.groups = {}                  # group -> dict(generation, member, protocol, metadata, assignment)
         self.held = []                    # fetches with nothing to return (long poll): never answered
+        self.closed_on = set()
 
     def topic(self, name):
         if name not in self.topics:
@@ -65,6 +66,11 @@ class SimBroker:
         b, corr, api = req["body"], req["correlation"], req["body"]["api"]
         if api == "ApiVersions":
             if self.api_mode == "close":
+                # a pre-0.10 broker drops the connection on the unknown API key; a broker client that reconnects and
+                # re-sends the same request is then left without an answer (its request timer decides)
+                if corr in self.closed_on:
+                    return None
+                self.closed_on.add(corr)
                 return "close"
             if self.api_mode == "error35":
                 return KR.enc_apiversions((corr, 35, []))
@@ -184,7 +190,8 @@ class Stream:
                     moved = True
             if not moved:
                 return
-        raise RuntimeError("simulated network does not come to rest")
+        raise RuntimeError("simulated network does not come to rest; last frames: %r" %
+                           [(c, r and (r["body"]["api"], r["correlation"])) for c, _b, r in self.frames[-8:]])
 
     def run_for(self, seconds, step=0.5):
         t = 0.0
@@ -250,7 +257,7 @@ def run_stream(rnd, nice, discovery, api_mode, codec_id):
         cgroup = nice(rnd)
         cmeta = rnd.choice([None, b"", b"c-meta"])
         cons = Consumer(st.client, topic, 0, processor, consumer_group=cgroup, commit_metadata=cmeta,
-                        auto_commit_every_n=1, auto_commit_every_ms=0, **fetch_cfg)
+                        auto_commit_every_n=None, auto_commit_every_ms=None, **fetch_cfg)
         cons.start(OFFSET_EARLIEST).addErrback(lambda f: problems.append("consumer failed: %r" % (f.value,)))
         st.pump()
         d = cons.commit()
@@ -264,8 +271,8 @@ def run_stream(rnd, nice, discovery, api_mode, codec_id):
         ggroup = nice(rnd)
         session, hb = rnd.choice([6000, 30000]), rnd.choice([1000, 3000])
         grp = ConsumerGroup(st.client, ggroup, [topic], processor, session_timeout_ms=session, heartbeat_interval_ms=hb,
-                            consumer_kwargs=dict(auto_offset_reset=OFFSET_EARLIEST, auto_commit_every_n=1,
-                                                 auto_commit_every_ms=0, **fetch_cfg))
+                            consumer_kwargs=dict(auto_offset_reset=OFFSET_EARLIEST, auto_commit_every_n=None,
+                                                 auto_commit_every_ms=None, **fetch_cfg))
         grp.start().addErrback(lambda f: problems.append("group failed: %r" % (f.value,)))
         st.pump()
         st.run_for(2 * hb / 1000.0 + 1)
@@ -400,9 +407,7 @@ def run_stream(rnd, nice, discovery, api_mode, codec_id):
     for p in (0, 1):
         lg = [(o, m[2], m[3]) for o, m in enumerate(st.broker.logs.get((tb, p), []))]
         seen = delivered.get(p, [])
-        want = lg + lg if p == 0 else lg          # partition 0: standalone consumer, then (committed: nothing new) ...
-        if p == 0:
-            want = lg                              # ... the group consumer starts after the committed offset
+        want = lg + lg if p == 0 else lg          # partition 0: the standalone consumer, then the group's consumer (other group id)
         if seen != want:
             problems.append("partition %d: processors saw %r, the log is %r" % (p, seen[:6], lg[:6]))
     info["apis"] = {a: len(v) for a, v in by_api.items()}
